@@ -228,7 +228,16 @@ fn run_query(world: &DataWorld, kind: &str, params: &str, rho: &HashMap<String, 
                 Err(e) => return (preds, format!("err {}", err_class(&e))),
             };
             match $gen(dec) {
-                Ok(tokens) => (preds, format!("ok {}", matched_from_tokens(&tokens).join(","))),
+                Ok(tokens) => {
+                    let ts = tokens.to_string();
+                    let mut flag = String::new();
+                    for bad in ["unsafe", "no_mangle", "export_name", "link_section", "unsafe_code", "transmute"] {
+                        if ts.split(|c: char| !(c.is_alphanumeric() || c == '_')).any(|t| t == bad) {
+                            flag = format!("UNSAFE:{}", bad);
+                        }
+                    }
+                    (preds, format!("ok {}{}", matched_from_tokens(&tokens).join(","), flag))
+                }
                 Err(e) => (preds, format!("err {}", err_class(&e))),
             }
         }};
@@ -264,7 +273,16 @@ fn main() {
             let (preds, w) = build_world(name, archs, &rho);
             let mut out = format!("case {} wpreds={} ", id, preds.join(","));
             match &w {
-                Ok(w) => out.push_str(&format!("world=ok:{}", fmt_world(w))),
+                Ok(w) => {
+                    out.push_str(&format!("world=ok:{}", fmt_world(w)));
+                    // C18(a): everything the world generator emits is scanned for forbidden tokens
+                    let toks = generate::generate_world(w, archs).to_string();
+                    for bad in ["unsafe", "no_mangle", "export_name", "link_section", "unsafe_code", "transmute"] {
+                        if toks.split(|c: char| !(c.is_alphanumeric() || c == '_')).any(|t| t == bad) {
+                            out.push_str(&format!("UNSAFE:{}", bad));
+                        }
+                    }
+                }
                 Err(e) => out.push_str(&format!("world=err:{}", e)),
             }
             if let (Ok(w), Some(&"query")) = (&w, t.get(7)) {
